@@ -25,19 +25,42 @@ def _span(term):
 def extract(P, body, spec):
     """Returns dict(fold, seed_state, classes, variants, trans, end) for the parser body."""
     folds = [n for n in T.nodes(body["tree"], "mcall") if n["name"] == "fold" and T.render(n["recv"]).endswith(".char_indices()")]
-    if len(folds) != 1:
-        raise FsmError("expected one fold over char_indices(), found %d" % len(folds))
-    fold = folds[0]
-    src = T.render(T.peel_ref(fold["recv"]["recv"]))
-    seed = T.peel(fold["args"][0])
-    clo = T.peel(fold["args"][1])
-    if seed.get("k") != "tuple" or len(seed["es"]) != 2 or T.render(seed["es"][0]) != "std::vec::Vec::new()":
-        raise FsmError("fold seed is not (empty list, initial state): %s" % T.render(seed))
-    if clo.get("k") != "closure" or len(clo["params"]) != 2:
-        raise FsmError("fold closure shape")
-    seed_state = A.sname(T.peel(seed["es"][1])["res"]["path"])
+    loops = [n for n in T.nodes(body["tree"], "for") if T.render(n["iter"]).endswith(".char_indices()")]
+    form = None
+    if len(folds) == 1 and not loops:
+        form = "fold"
+        fold = folds[0]
+        src = T.render(T.peel_ref(fold["recv"]["recv"]))
+        seed = T.peel(fold["args"][0])
+        clo = T.peel(fold["args"][1])
+        if seed.get("k") != "tuple" or len(seed["es"]) != 2 or T.render(seed["es"][0]) != "std::vec::Vec::new()":
+            raise FsmError("fold seed is not (empty list, initial state): %s" % T.render(seed))
+        if clo.get("k") != "closure" or len(clo["params"]) != 2:
+            raise FsmError("fold closure shape")
+        seed_node = T.peel(seed["es"][1])
+        step_body = clo["body"]
+        anchor = fold
+        loop_info = None
+    elif len(loops) == 1 and not folds:
+        # the same machine written as `let mut pairs = vec![]; let mut state = S0; for (pos, ch) in target.char_indices() { .. }`
+        form = "for"
+        loop = loops[0]
+        src = T.render(T.peel_ref(T.peel_ref(loop["iter"])["recv"]))
+        lets = [s_ for s_ in T.nodes(body["tree"], "let") if s_["pat"]["p"] == "bind" and s_.get("init") is not None and "Mut" in s_["pat"].get("mode", "")]
+        st_let = [s_ for s_ in lets if T.peel(s_["init"]).get("k") == "path" and T.peel(s_["init"])["res"].get("dk", "").startswith("Ctor")]
+        pr_let = [s_ for s_ in lets if T.render(s_["init"]) == "std::vec::Vec::new()"]
+        if len(st_let) != 1 or len(pr_let) != 1:
+            raise FsmError("loop form: cannot identify the state variable / the pair list")
+        seed_node = T.peel(st_let[0]["init"])
+        step_body = loop["body"]
+        anchor = loop
+        loop_info = {"state_id": st_let[0]["pat"]["id"], "pairs_id": pr_let[0]["pat"]["id"], "pairs_name": pr_let[0]["pat"]["name"], "pat": loop["pat"]}
+        clo = None
+    else:
+        raise FsmError("expected one fold (or one `for`) over char_indices(), found %d fold(s) and %d loop(s)" % (len(folds), len(loops)))
+    seed_state = A.sname(seed_node["res"]["path"])
     # state enum
-    enum_path = T.peel(seed["es"][1])["res"]["path"].rsplit("::", 1)[0]
+    enum_path = seed_node["res"]["path"].rsplit("::", 1)[0]
     adt = P.adts.get(enum_path)
     if not adt or adt["kind"] != "enum":
         raise FsmError("state enum %s not found" % enum_path)
@@ -46,7 +69,7 @@ def extract(P, body, spec):
         raise FsmError("state variants with more than one payload are not modelled")
     # alphabet partition: literal chars used anywhere in the closure + the spec's classes
     lits = set()
-    for n in T.nodes(clo["body"]):
+    for n in T.nodes(step_body):
         if n.get("k") == "lit" and n.get("lk") == "char":
             lits.add(n["v"][0])
         if n.get("k") == "match":
@@ -69,11 +92,21 @@ def extract(P, body, spec):
                 env = {}
                 pairs = A.VecV([], base=A.Sym("PAIRS"))
                 st = A.Variant(vn, [A.Sym("start")] if ar else [])
-                if not J.match_pat(clo["params"][0]["pat"], A.Tuple([pairs, st]), env):
-                    raise A.Cannot("accumulator pattern")
-                if not J.match_pat(clo["params"][1]["pat"], A.Tuple([A.Sym("pos"), cc]), env):
+                if form == "fold":
+                    if not J.match_pat(clo["params"][0]["pat"], A.Tuple([pairs, st]), env):
+                        raise A.Cannot("accumulator pattern")
+                    if not J.match_pat(clo["params"][1]["pat"], A.Tuple([A.Sym("pos"), cc]), env):
+                        raise A.Cannot("item pattern")
+                    return J.ev(clo["body"], env)
+                env[loop_info["state_id"]] = st
+                env[loop_info["pairs_id"]] = pairs
+                if not J.match_pat(loop_info["pat"], A.Tuple([A.Sym("pos"), cc]), env):
                     raise A.Cannot("item pattern")
-                return J.ev(clo["body"], env)
+                try:
+                    J.ev(step_body, env)
+                except A._Continue:
+                    pass
+                return A.Tuple([pairs, env[loop_info["state_id"]]])
             outs = I.explore(run)
             res = []
             for o in outs:
@@ -93,7 +126,7 @@ def extract(P, body, spec):
                 payload = A.show(nxt.args[0]) if nxt.args else None
                 events = []
                 for e in o["effects"]:
-                    if e[0] == "push" and e[1] == "pairs":
+                    if e[0] == "push" and e[1] in ("pairs", (loop_info or {}).get("pairs_name")):
                         val = e[2]
                         if not (isinstance(val, A.Tuple) and len(val.items) == 2 and isinstance(val.items[1], A.Variant) and val.items[1].name == "None"):
                             raise FsmError("push of %s is not a (word, None) pair" % A.show(val))
@@ -113,7 +146,8 @@ def extract(P, body, spec):
                         raise FsmError("unrecognised effect %s %s in transition (%s, %s)" % (e[0], e[1], vn, cname))
                 res.append({"nonempty": cond, "next": nxt.name, "payload": payload, "events": events})
             trans[(vn, cname)] = res
-    return {"fold": fold, "closure": clo, "seed_state": seed_state, "classes": classes, "variants": variants, "trans": trans, "source": src}
+    return {"fold": anchor, "closure": clo, "seed_state": seed_state, "classes": classes, "variants": variants, "trans": trans, "source": src,
+            "form": form, "loop_info": loop_info}
 
 
 def _pat_chars(p, out):
@@ -136,6 +170,16 @@ def extract_end(P, body, fsm):
             raise A.Cannot("unexpected fold")
         I = A.Interp(P, models={"std::iter::Iterator::fold": fold_model})
         I.lazy_locals = True
+        if fsm.get("form") == "for":
+            li = fsm["loop_info"]
+
+            def ev_for(n, env, vn=vn, ar=ar, li=li):
+                if n is fold:
+                    env[li["state_id"]] = A.Variant(vn, [A.Sym("start")] if ar else [])
+                    env[li["pairs_id"]] = A.VecV([], base=A.Sym("PAIRS"))
+                    return A.UNIT
+                raise A.Cannot("unexpected loop")
+            I.ev_for = ev_for
         tok = body["params"][0]["pat"]
 
         def run(J):
@@ -155,7 +199,7 @@ def extract_end(P, body, fsm):
                 raise FsmError("end-of-input behaviour in state %s depends on %s" % (vn, list(d)))
             events = []
             for e in o["effects"]:
-                if e[0] == "push" and e[1] == "pairs":
+                if e[0] == "push" and e[1] in ("pairs", (fsm.get("loop_info") or {}).get("pairs_name")):
                     sp = _span(A.show(e[2].items[0])) if isinstance(e[2], A.Tuple) else None
                     if sp is None:
                         raise FsmError("end-of-input push %s" % A.show(e[2]))
